@@ -6,6 +6,7 @@ import (
 	"fmt"
 	"os"
 
+	"verif/internal/cli"
 	"verif/internal/core"
 	"verif/internal/gen"
 	"verif/internal/rt"
@@ -41,6 +42,8 @@ func check(prop, tier string) int {
 		code, err = rt.RunSeq(prop, tier)
 	case "C01", "C02", "C09", "C10", "C11", "C12", "C13", "C14", "C16", "C20":
 		code, err = gen.RunGen(prop, tier)
+	case "C15", "C17", "C18", "C19":
+		code, err = cli.RunCLI(prop, tier, nil)
 	case "C05", "C06":
 		code, err = rt.RunConc(prop, tier)
 	default:
